@@ -3,7 +3,7 @@ import os
 from xml.parsers.expat import ExpatError
 from typing import Optional, Tuple, Union
 
-from plistlib import dumps, load
+from plistlib import dumps, InvalidFileException, load
 
 from . import json
 from .edits import Edit, EditCollection, Match
@@ -166,6 +166,10 @@ class PLIST(Filetype):
             return self.build_tree(path=path, options=options)
         except ExpatError as ee:
             return f'Error parsing {os.path.basename(path)}: {ee})'
+        except (InvalidFileException, ValueError, LookupError) as e:
+            # plistlib reports malformed content in many ways other than a syntax error from expat, e.g.,
+            # an unknown encoding (LookupError), a bad number (ValueError), or unbalanced elements (IndexError)
+            return f'Error parsing {os.path.basename(path)}: {e!s}'
 
     def get_default_formatter(self) -> PLISTFormatter:
         return PLISTFormatter.DEFAULT_INSTANCE
